@@ -21,6 +21,8 @@ appears where an operation allocates.
   exact statement, the cases where that is `d` again, and the two ways it is not.
 -/
 namespace Nima.C19
+-- name tokens are compared by spelling in this file (see `NameCmp` in Model/Edit.lean)
+attribute [local instance] NameCmp.spelled
 
 open Node
 
